@@ -111,7 +111,8 @@ def body_ortho(case):
     before = build.snapshot(t)
     x = dense.contract(t.cores)
     scale = dense.scale_of(t.cores) if spec['klass'] != 'zero_core' else max(dense.scale_of([c for j, c in enumerate(t.cores) if j != spec['which']]), 1.0)
-    kw = {'threshold': 0, 'max_rank': np.inf} if case['explicit_args'] else {}
+    # ("no cap" written out -- as numpy.inf itself, as another infinite float object, or as a NumPy scalar)
+    kw = {'threshold': 0, 'max_rank': [np.inf, float('inf') * 2, np.float64('inf')][spec['seed'] % 3]} if case['explicit_args'] else {}
     sweep = case['sweep']
     lab = gen.spec_labels(spec)
     lab.add(spec['klass'])
